@@ -180,6 +180,7 @@ func (m *joinMon) onDeliver(w *vrt.World, ev *vrt.Event) {
 		// rough termination: what is delivered is an in-order duplicate-free
 		// subsequence of what was written (C16); completeness is not required
 		for _, v := range s {
+			v-- // element values are index+1
 			if v < m.next || v >= m.written {
 				m.f.fail("C16", "delivered %v is not an in-order duplicate-free subsequence of the written elements (next admissible %d, written %d)", s, m.next, m.written)
 				break
@@ -197,10 +198,10 @@ func (m *joinMon) onDeliver(w *vrt.World, ev *vrt.Event) {
 		m.f.fail("C03", "empty output slice")
 	}
 	for i, v := range s {
-		if v != m.next+i {
-			m.f.fail("C03", "output slice %d is %v but the input stream continues with element %d at offset %d (loss, duplication or reordering)", m.nslices, s, m.next+i, i)
+		if v != m.next+i+1 {
+			m.f.fail("C03", "output slice %d is %v but the input stream continues with element %d at offset %d (loss, duplication or reordering; element values are 1, 2, 3, ...)", m.nslices, s, m.next+i+1, i)
 			if m.cfg.Disc == "unite2" {
-				m.f.fail("C11", "output slice %d is %v: the input slice holding element %d does not appear wholly and contiguously in it (input slice lengths %v)", m.nslices, s, m.next+i, m.segs)
+				m.f.fail("C11", "output slice %d is %v: the input slice holding element %d does not appear wholly and contiguously in it (input slice lengths %v)", m.nslices, s, m.next+i+1, m.segs)
 			}
 			break
 		}
@@ -389,6 +390,18 @@ func newJoin(c Cfg, w *vrt.World) *explore.Instance {
 		vrt.Spawn("producer", func() {
 			i := 0
 			zeros := 0
+			nseg := 0
+			reuse := [2][]int{make([]int, total+2), make([]int, total+2)}
+			inter := [2][]int{make([]int, total+4), make([]int, total+4)}
+			if c.Mode == "interleave" && c.Disc == "unite2" {
+				// the pending input is in place up-front (fixed slice length Lens[0])
+				fl := c.Lens[0]
+				for k := 0; k*fl < total; k++ {
+					for x := 0; x < fl && k*fl+x < total; x++ {
+						inter[k%2][(k/2)*fl+x] = k*fl + x + 1
+					}
+				}
+			}
 			for i < total {
 				vrt.Mark(vrt.Mix(uint64(i), hashInts(m.segs)))
 				l := 1
@@ -414,9 +427,23 @@ func newJoin(c Cfg, w *vrt.World) *explore.Instance {
 				if d := pauses[vrt.Choose(len(pauses))]; d > 0 {
 					vtime.Sleep(time.Duration(d * unit))
 				}
-				seg := make([]int, l)
+				var seg []int
+				switch {
+				case c.Mode == "reuse" && c.Disc == "unite2":
+					// the producer alternates two reusable blocks; over an unbuffered input
+					// the block sent before the previous one has been processed completely
+					// when the previous send returned, so refilling it is legal
+					seg = reuse[nseg%2][:l]
+				case c.Mode == "interleave" && c.Disc == "unite2":
+					// input slices are sub-slices of two larger arrays, taken alternately:
+					// the spare capacity of one input slice holds later, still pending input
+					seg = inter[nseg%2][(nseg/2)*l : (nseg/2)*l+l]
+				default:
+					seg = make([]int, l)
+				}
+				nseg++
 				for k := range seg {
-					seg[k] = i + k
+					seg[k] = i + k + 1
 				}
 				m.segs = append(m.segs, l)
 				m.written += l
